@@ -207,6 +207,10 @@ static void buildCatalogue() {
         KSI_DataHash_free(root); KSI_Integer_free(v); KSI_DataHash_free(h); KSI_HashChainLinkList_free(links); KSI_IntegerList_free(idx); KSI_AggregationHashChain_free(ch); return r; }});
     g_ops.push_back({"error-stack-rendering", none, [](KSI_CTX *ctx, St &) { Result r; KSI_Signature *s = nullptr; unsigned char junk[] = {0x88, 0x00, 0x00, 0x02, 0x01, 0x02}; int e = KSI_Signature_parse(ctx, junk, sizeof junk, &s); KSI_Signature_free(s); char buf[2048]; buf[0] = 0; int err = 0, ext = 0; r.code = KSI_ERR_getBaseErrorMessage(ctx, buf, sizeof buf, &err, &ext); char big[4096]; KSI_ERR_toString(ctx, big, sizeof big);
         if (r.code == KSI_OK) r.out = num(e != KSI_OK) + "/" + num(err != 0); return r; }});
+    // endpoints that are already configured are configured again (the old strings are replaced)
+    g_ops.push_back({"ctx-reconfigure-endpoints", [](KSI_CTX *ctx, St &) { return KSI_CTX_setAggregator(ctx, "ksi+http://a0.example.test/aggr", "user0", "key0") == KSI_OK && KSI_CTX_setExtender(ctx, "ksi+tcp://e0.example.test:4440", "user0", "key0") == KSI_OK && KSI_CTX_setPublicationUrl(ctx, "http://p0.example.test/pub0.bin") == KSI_OK; },
+        [](KSI_CTX *ctx, St &) { Result r; r.code = KSI_CTX_setAggregator(ctx, "ksi+http://a1.example.test:8080/aggregator-service", "another-user", "another-key"); if (r.code == KSI_OK) r.code = KSI_CTX_setExtender(ctx, "ksi+tcp://e1.example.test:4441", "another-user", "another-key");
+            if (r.code == KSI_OK) r.code = KSI_CTX_setPublicationUrl(ctx, "http://p1.example.test/publications-file.bin"); if (r.code == KSI_OK) r.code = KSI_CTX_setAggregator(ctx, "file:///nonexistent/aggr-response.tlv", "u", "k"); if (r.code == KSI_OK) r.code = KSI_CTX_setExtender(ctx, "ksi+http://e2.example.test/ext", "u2", "k2"); return r; }});
 }
 
 static Result runClean(size_t oi, uint64_t *allocs) {
